@@ -54,6 +54,9 @@ fn body(file_level_using: bool) -> (String, Vec<i32>, Vec<i32>, Vec<i32>) {
         ("    }".into(), ""),
         ("    function add(uint256 x, uint256 y) internal pure returns (uint256) { return x; }".into(), ""),
         ("}".into(), ""),
+        // the file attaches SafeMath: call sites outside the attaching contract count too
+        ("contract Sibling { function g(uint256 a, uint256 b) public pure returns (uint256) { return a.add(b); } }".into(), "S"),
+        ("function freeDiv(uint256 a, uint256 b) pure returns (uint256) { return a.div(b); }".into(), "S"),
     ];
     let mut text = String::new();
     let (mut s, mut r, mut l) = (vec![], vec![], vec![]);
